@@ -480,4 +480,9 @@ mod tests {
         assert_eq!(id0, id1);
         assert_ne!(id0, clone_id)
     }
+
+    #[cfg(lumina_verif)]
+    mod verif_native {
+        include!(concat!(env!("LUMINA_VERIF_DIR"), "/native/node/store.rs"));
+    }
 }
